@@ -192,7 +192,7 @@ def check_item(item):
             lp |= fol_preds(a[4])
         left_private = {p for p in lp if p not in public}
     req, resp = run_task(b, task, 'universal', 'independent', False, False, outline=po)
-    refused = resp[0][0] == 'refused'
+    refused = resp[0][:1] == ('refused',)
     if 'expect_refused' in item:
         r = dict(base)
         r.update(key=item['label'], input=item['label'], nontrivial=True,
